@@ -37,3 +37,13 @@ GS('dm.__yd_diff', 'date-core', '__yd_diff', ['C05'], ysplit('d1.y', 4, 1601, 40
 G('dm.dt_dur_neg_p', 'date-core', 'dt_dur_neg_p', ['C16'], ins=[(U, 'in_dt'), ('int', 'in_dv'), (U, 'in_neg')],
   setup='struct dt_ddur_s dur = {DT_DURUNK}; dur.durtyp = (dt_durtyp_t)in_dt; dur.dv = in_dv; dur.neg = in_neg & 1;', call='dt_dur_neg_p(dur)', ret='int',
   sweep={'in_dt': 'RND % 12'})
+# C02: %G prints the ISO year whatever the representation / state of the print record
+for t in ('DT_YMD', 'DT_YD', 'DT_YMCW', 'DT_YWD'):
+    G('dm.__strfd_card.G.' + t[3:], 'date-core', '__strfd_card', ['C02'],
+      body='\tchar *buf; size_t bsz; struct dt_spec_s s; struct strpd_s *d; struct dt_d_s that; unsigned in_typ = %s;\n'
+           '\t__CPROVER_assume(that.typ == (dt_dtyp_t)in_typ);\n\t__strfd_card(buf, bsz, s, d, that);' % t,
+      replace=['dt_dconv'], native=False, timeout=900, solvers=['cadical'])
+for t in ('DT_YMD', 'DT_YD', 'DT_YWD', 'DT_DAISY'):
+    G('dm.dt_dcmp.' + t[3:], 'date-core', 'dt_dcmp', ['C08'], ins=[(U, 'in_typ'), ('uint32_t', 'in_u1'), ('uint32_t', 'in_u2')], fix={'in_typ': t},
+      setup='struct dt_d_s d1 = {DT_DUNK}, d2 = {DT_DUNK}; d1.typ = d2.typ = (dt_dtyp_t)in_typ; d1.u = in_u1; d2.u = in_u2;', call='dt_dcmp(d1, d2)', ret='int',
+      replace=['__ymcw_cmp/UNREACH___ymcw_cmp'], solvers=SV, timeout=600, sweep={'in_u1': 'RND', 'in_u2': 'RND'})
